@@ -38,11 +38,12 @@ def life_slices(tier, ops=None, name="L_life"):
     if th and ops is None:
         import itertools
         alls = ["sign", "rrsign", "refresh_dealer", "refresh_dkg", "refresh_dealer_drop", "repair", "reload"]
-        seqs = [list(p) + ["sign"] for p in itertools.permutations(alls, 3)][:120]
+        # every ordered triple of different operations, followed by a signing session (210 sequences)
+        seqs = [list(p) + ["sign"] for p in itertools.permutations(alls, 3)]
     opseqs = "{" + ", ".join("<<" + ",".join('"%s"' % o for o in s) + ">>" for s in seqs) + "}"
-    return [dict(name=name, module="Life", invariants=LIFE_INV, timeout=3000, consts=consts(
-        11, Shapes="{<<4,2>>, <<4,3>>}" if th else "{<<4,3>>}", IdSets="{{1,2,3,4}, {2,5,7,10}}" if th else "{{2,5,7,10}}",
-        Inits='{"dealer","dkg"}', OpSeqs=opseqs, Vals="{3,7}" if th else "{3}", RandChoices="{1}", Msg="<<104,105>>",
+    return [dict(name=name, module="Life", invariants=LIFE_INV, timeout=1500, consts=consts(
+        11, Shapes="{<<4,2>>, <<4,3>>}" if th else "{<<4,3>>}", IdSets="{{2,5,7,10}}",
+        Inits='{"dealer","dkg"}', OpSeqs=opseqs, Vals="{3}", RandChoices="{1}", Msg="<<104,105>>",
         DomH3="{2,5}", DomH1="{5}", DomH2="{3}", DomHDKG="{4}", DomHR="{6}", EMIT="TRUE"))]
 
 
@@ -267,7 +268,7 @@ def c07_slices(tier):
     if th:
         sl.append(dict(name="D_q11_polys", module="C07", invariants=C07_INV, timeout=3000, consts=consts(
             11, Shapes="{<<3,2>>, <<3,3>>}", IdSets="{{1,2,3}, {4,9,10}}", A0Choices="{1,10}", CoeffChoices="{0,3,7}",
-            KChoices="{2}", MaxExtra="0", DomHDKG="{0,4}", **base)))
+            KChoices="{2}", MaxExtra="0", DomHDKG="{4}", **dict(base, DomH3="{2}", DomH1="{5}"))))
     return sl
 
 
@@ -601,7 +602,7 @@ def c13_slices(tier):
         RPolys=fn({k: seq(v) for k, v in rpolys.items()}), DCoeffs=seq([((k * 17) % 250) + 1 for k in range(th_ - 1)]), KNonce="2",
         Crash="{%s}" % ALLB, Forms='{"bin"}', Msg="<<1>>", DomH3="{2}", DomH1="{5}", DomH2="{3}", DomHDKG="{4}", EMIT="TRUE")))
     # size sweep (spec/props/C13Size.tla): one behaviour per threshold/group size and persistence route
-    sizes = "(2..70) \\cup {100,128,129,200}" if th else "{2,17,37,65}"
+    sizes = "(2..40) \\cup {63,64,65,100,128}" if th else "{2,17,37,65}"
     sl.append(dict(name="S_size_sweep", module="C13Size", invariants=["InvCompletes", "InvRestored", "Emit"], timeout=3000,
                    consts=consts(257, Sizes=sizes, Forms='{"bin","json","parts"}', Key="200", Coeff="3", NonceK="7", Msg="<<1>>",
                                  DomH3="{77}", DomH1="{5}", DomH2="{100}", DomHDKG="{4}", EMIT="TRUE")))
